@@ -110,6 +110,9 @@ def run(ctx: Ctx) -> None:
     for i in range(nprog):
         mods = progen.gen_modules(rnd, rnd.randint(2, 4))
         srcs = {k: p.src for k, p in mods.items()}
+        if i == 1:
+            import shapes
+            srcs = dict(shapes.ALL)      # generic classes, forward references inside type arguments, wide signatures
         names = list(srcs)
         if i == 0:
             names = names + ['example.json']
